@@ -6,11 +6,18 @@ PID = 'C01'
 
 def run(ctx, out):
     kprop.run(ctx, out, PID, ['C01'], {'outcome','refs-as-sets','values'}, 2000, 40000, pool=kgen.REF_TEMPLATES, weights=None, p_wrong=0.05)
+    # bidirectional references whose ends are typed asymmetrically (far end typed by a subclass): the ends must
+    # agree after every call, accepted or refused (oracle on the implementation only; shared with C03)
+    from harness.props import c03
+    c03.asym_scenarios(ctx, out, pid=PID)
 
 
 def replay(ctx, rep):
-    from harness import krun
+    from harness import krun, common
     case = rep['case']
+    if case.get('scenario') == 'asym':
+        from harness.props import c03
+        return common.scenario_replay(ctx, rep, {'asym': lambda c, o: c03.asym_scenarios(c, o, pid=PID)})
     r = krun.Run(case, ['C01']).run()
     for s in r.steps:
         print(s['op'], '->', s['outcome'])
